@@ -25,7 +25,8 @@ OPS = [("set", 0, 0, 0, 0), ("set", 0, 1, 1, 1), ("set", 1, 0, 2, 2), ("set", 0,
 NOPS = len(OPS)
 
 
-def _apply(cache, model, op, exps, clock):
+def _apply(cache, model, op, exps, clock, stored=None):
+    stored = stored or exps
     kind = op[0]
     if kind == "identity":
         # a read in the middle of the history must not change what is stored
@@ -38,7 +39,7 @@ def _apply(cache, model, op, exps, clock):
         return
     if kind == "set":
         _, s, e, i, x = op
-        cache.set(S[s], E[e], copy.deepcopy(INFO[i]), exps[x])     # the oracle keeps the pristine INFO
+        cache.set(S[s], E[e], copy.deepcopy(INFO[i]), stored[x])     # the oracle keeps the pristine INFO
         model.setdefault(s, {})[e] = (exps[x], i)
     elif kind == "reset":
         _, s, e = op
@@ -53,18 +54,20 @@ def _apply(cache, model, op, exps, clock):
         model.pop(s, None)
 
 
-def history(o1: int, o2: int, o3: int, o4: int, n: int, now: int, x0: int, x1: int, x2: int, check: bool, later: int = 0):
+def history(o1: int, o2: int, o3: int, o4: int, n: int, now: int, x0: int, x1: int, x2: int, check: bool, later: int = 0, as_text: bool = False):
     """A history of n operations (store / overwrite / reset / delete over two subjects that differ
     in one NameID field and two sources, with three symbolic expiry instants), followed by a
     battery of queries compared with a reference model under a symbolic clock."""
-    Clock(now)
+    ck = Clock(now)
     ops = [OPS[concrete(o)] for o in (o1, o2, o3, o4)][:concrete(n)]
     exps = (x0, x1, x2)
+    # the expiry as the client stores it: epoch seconds, or (as_text) the xs:dateTime text of the assertion
+    stored = tuple(ck.stamp(i + 1, v) for i, v in enumerate(exps)) if concrete(as_text) else exps
     cache = Cache()
     model = {}
     clock = {"now": now, "later": later if later >= now else now}
     for op in ops:
-        _apply(cache, model, op, exps, clock)
+        _apply(cache, model, op, exps, clock, stored)
     now = clock["now"]
     ok = True
     for s in range(NS):
@@ -118,10 +121,10 @@ def history(o1: int, o2: int, o3: int, o4: int, n: int, now: int, x0: int, x1: i
 CONDITIONS = [
     Cond(name="history", fn="history",
          params=[("o1", "int"), ("o2", "int"), ("o3", "int"), ("o4", "int"), ("n", "int"), ("now", "int"),
-                 ("x0", "int"), ("x1", "int"), ("x2", "int"), ("check", "bool"), ("later", "int")],
+                 ("x0", "int"), ("x1", "int"), ("x2", "int"), ("check", "bool"), ("later", "int"), ("as_text", "bool")],
          pre=["0 <= o1 < %d" % NOPS, "0 <= o2 < %d" % NOPS, "0 <= o3 < %d" % NOPS, "0 <= o4 < %d" % NOPS, "1 <= n <= 4",
               "1 <= now <= 1000000", "1 <= later <= 1000000", "1 <= x0 <= 1000000", "1 <= x1 <= 1000000", "1 <= x2 <= 1000000"],
-         partitions={"quick": [{"n": 2, "o3": 0, "o4": 0, "o1": a, "o2": b} for a in range(NOPS) for b in (0, 1, 2, 4, 6, 9, 11)] +
+         partitions={"quick": [{"n": 2, "o3": 0, "o4": 0, "o1": a, "o2": b, "as_text": (a + b) % 2 == 1} for a in range(NOPS) for b in (0, 1, 2, 4, 6, 9, 11)] +
                               [{"n": 3, "o4": 0, "o1": a, "o2": b, "o3": c, "check": True} for (a, b) in ((0, 1), (3, 2)) for c in range(NOPS)] +
                               [{"n": 4, "o1": 0, "o2": 1, "o3": 9, "o4": d, "check": True} for d in (4, 5, 3, 10)] +
                               [{"n": 4, "o1": 1, "o2": 0, "o3": 9, "o4": d, "check": True} for d in (4, 5, 10)],
@@ -131,7 +134,7 @@ CONDITIONS = [
          functions=["cache.Cache.set/get/get_identity/reset/delete/active/entities/subjects", "time_util.after/before/not_on_or_after", "ident.code/decode"],
          bounds="histories of 2 and (sampled first two ops) 3 operations in quick, all 3-op and sampled 4-op histories in thorough, over 13 operation codes "
                 "(store from two sources for three subjects - two differing in one NameID field, one lacking it -, overwrite, reset, delete, a get_identity read in mid-history, "
-                "a clock tick to a later symbolic instant); three symbolic expiry instants and a symbolic clock in [1, 10^6] "
+                "a clock tick to a later symbolic instant); three symbolic expiry instants (stored as epoch seconds or as xs:dateTime text) and a symbolic clock in [1, 10^6] "
                 "(z3 decides every ordering incl. ties); expiry checking on/off"),
 ]
 
